@@ -19,12 +19,17 @@ invariant and is in the modes the vocabulary cannot leave),
 * `emu_refines_histories`, `emu_refines_from_start`: lifted to all histories over the vocabulary by
   induction, from a freshly started terminal of any size.
 
-Not covered by these theorems: SGR (the pen interpretation is C18's theorem about its own model of
-sgr.go; here the pen is compared by the oracle on the implementation), glyphs with an empty
-grapheme string (the parser never emits them), parameters with sub-parameters / more than two
-parameters (outside `tokOf`).
+* `emu_refines_term_all`, `emu_refines_histories_all`, `emu_refines_from_start_all`: the same with
+  SGR included (`sgr_refines_spec`: on every well-formed SGR sequence — `WfSgr`: any simple codes,
+  `4:k` k ≤ 5, complete colon and legacy extended-colour forms, values ≤ 255, and the truncated forms
+  on which both sides stop — the emulator's pen abstracts to `Spec.sgr` of the abstracted pen).
+
+Restrictions: glyphs with an empty grapheme string (the parser never emits them); parameters with
+sub-parameters / more than two parameters for the non-SGR functions (outside `tokOf`); SGR 6, 21,
+values > 255 and the malformed SGR forms D1–D4 listed in notes/C06.md (terminal specific).
 -/
 import VaxisModel.Lemmas.EmuRefineStep
+import VaxisModel.Lemmas.EmuRefineAll
 import VaxisModel.Props.C05
 
 namespace VaxisModel.Props.C06
@@ -80,12 +85,35 @@ theorem sim_accepts {t : Term.T} {e : Emu} {rows cols : Nat} (s2 : Sim2 t e rows
   ⟨s2.sim.trows, s2.sim.tcols, s2.sim.onAlt, s2.sim.row, s2.sim.pw, s2.sim.pen, s2.sim.top, s2.sim.bottom,
     s2.sim.grid⟩
 
-/-- The full statement including SGR (not proved against this transcription of sgr.go; C18 proves
-    the pen interpretation for its own model; the oracle compares the pen on the implementation). -/
-def emu_refines_term_full : Prop :=
-  ∀ {t : Term.T} {e : Emu} {rows cols : Nat} (op : EOp) (tok : Term.Tok),
-    tokOf op = some tok → (∀ g w, op = .print g w → g ≠ []) → Sim2 t e rows cols →
-    ∃ r, emuStep e op = .ok r ∧ Refines2 (Term.step t tok) r.1 rows cols
+/-! ### with SGR -/
+
+/-- The emulator's SGR interpretation abstracts to the reference's, on every well-formed sequence of
+    the vocabulary (empty list = reset included). -/
+theorem sgr_refines_spec {pm : List Param} {ps : List (List Nat)} (e : Emu)
+    (hp : sgrParams pm = some ps) (hw : WfSgr ps = true) :
+    ∃ s', Model.Emu.sgr e (clampParams pm) = .ok { e with cur := { e.cur with st := s' } } ∧
+      absStyle s' = Spec.sgr (absStyle e.cur.st) ps :=
+  let ⟨s', h1, h2, _⟩ := sgr_pen e hp hw
+  ⟨s', h1, h2⟩
+
+/-- One operation of the WHOLE vocabulary (SGR included), any parameter, any related states. -/
+theorem emu_refines_term_all {t : Term.T} {e : Emu} {rows cols : Nat} (op : EOp) (tok : Term.Tok)
+    (hv : VocabOpAll op tok) (s2 : Sim2 t e rows cols) :
+    ∃ r, emuStep e op = .ok r ∧ Refines2 (Term.step t tok) r.1 rows cols :=
+  emu_refines_step_all op tok hv s2
+
+/-- All histories over the whole vocabulary. -/
+theorem emu_refines_histories_all {rows cols : Nat} {ops : List EOp} {toks : List Term.Tok}
+    (hv : VocabHistAll ops toks) {t : Term.T} {e : Emu} (s2 : Sim2 t e rows cols) :
+    ∃ e', runOps e ops = .ok e' ∧ SpecAllows t toks e' rows cols :=
+  emu_refines_history_all step_safe hv s2
+
+/-- From start-up, the whole vocabulary. -/
+theorem emu_refines_from_start_all (w h : Int) (hw1 : 1 ≤ w) (hw2 : w ≤ 65535) (hh1 : 1 ≤ h) (hh2 : h ≤ 65535)
+    {ops : List EOp} {toks : List Term.Tok} (hv : VocabHistAll ops toks) :
+    ∃ e0 e', Emu.new Fixes.current w h = .ok e0 ∧ runOps e0 ops = .ok e' ∧
+      SpecAllows (Term.T.init h.toNat w.toNat) toks e' h.toNat w.toNat :=
+  emu_refines_session_all step_safe w h hw1 hw2 hh1 hh2 hv
 
 /-! ### non-vacuity -/
 
@@ -101,5 +129,12 @@ example : VocabHist [.csi [72] [(0, []), (0, [])], .print [97] 1, .csi [75] [(2,
   refine .cons ⟨by decide, (by intro pm h; cases h), (by intro g w h; cases h; decide)⟩ ?_
   refine .cons ⟨by decide, (by intro pm h; cases h), (by intro g w h; cases h)⟩ ?_
   exact .cons ⟨by decide, (by intro pm h; cases h), (by intro g w h; cases h)⟩ .nil
+
+/-- A history with SGR: `CSI 1;38;5;9 m`, print "a", `CSI m`. -/
+example : VocabHistAll [.csi [109] [(1, []), (38, []), (5, []), (9, [])], .print [97] 1, .csi [109] []]
+    [.sgr [[1], [38], [5], [9]], .print [97] 1, .sgr []] := by
+  refine .cons ⟨by decide, (by intro ps h; cases h; exact ⟨by decide, _, rfl, by decide⟩), (by intro g w h; cases h)⟩ ?_
+  refine .cons ⟨by decide, (by intro ps h; cases h), (by intro g w h; cases h; decide)⟩ ?_
+  exact .cons ⟨by decide, (by intro ps h; cases h; exact ⟨by decide, _, rfl, by decide⟩), (by intro g w h; cases h)⟩ .nil
 
 end VaxisModel.Props.C06
